@@ -214,7 +214,7 @@ class _E:
 
 
 def _split_opts(spec, d=None):
-    plain = dict(spec['options'])
+    plain = W.caller_spelling(dict(spec['options']))
     if d is not None and plain.get('import_paths'):
         # '@dir/<sub>' = a grammar library directory inside the directory the nodes of this pipeline share
         plain['import_paths'] = [os.path.join(d, x[5:]) if isinstance(x, str) and x.startswith('@dir/') else x for x in plain['import_paths']]
